@@ -1128,10 +1128,10 @@ pub fn run(ctx: &mut Ctx) {
     }
     ctx.drain_chain_hook(|| json!("building the certificate pool"));
 
-    let n_cases = ctx.stage_budget((3_200, 200_000), 20_000, 240, 0);
+    let n_cases = ctx.stage_budget((24_000, 400_000), 20_000, 240, 0);
     let mutants_per_case: u64 = match ctx.stage {
         Stage::Native => match ctx.tier {
-            crate::core::Tier::Quick => 16,
+            crate::core::Tier::Quick => 24,
             crate::core::Tier::Thorough => 25,
         },
         Stage::Asan => 10,
